@@ -171,8 +171,11 @@ pub fn check_image(img: &Image, o: &FOpts, dev_len: u64, sentinel: Option<u8>) -
     for c in 0..g.nfats {
         let a = v.fat_raw(c, 0) & 0x0FFF_FFFF;
         let b1 = v.fat_raw(c, 1) & 0x0FFF_FFFF;
-        if a != f0 || b1 != f1 {
-            return Err(format!("FAT copy {}: entries 0/1 are {:#x}/{:#x}, expected {:#x}/{:#x}", c, a, b1, f0, f1));
+        // FAT[0]: media descriptor in the low byte, all other bits set. FAT[1]: an end-of-chain mark with the
+        // "clean shutdown" and "no hard error" bits (the two top bits on FAT16/32) set - any EOC value qualifies
+        let f1_ok = b1 >= g.eoc_min() && b1 <= f1 && (g.fat_bits == 12 || (b1 >> (if g.fat_bits == 16 { 14 } else { 26 })) & 3 == 3);
+        if a != f0 || !f1_ok {
+            return Err(format!("FAT copy {}: entries 0/1 are {:#x}/{:#x}, expected {:#x} and an end-of-chain mark with the clean bits set", c, a, b1, f0));
         }
     }
     if let Some(d) = fatck::fat_copies_differ(img, &g) {
